@@ -73,7 +73,12 @@ Definition judge (s : scn) : sexp :=
     else
     match obs_wg o with
     | None => L [sym "specfail"; sym "c11-wg"; L []]
-    | Some _ =>
+    | Some twg =>
+      (* wg.Wait() (started by the caller right after cancelling) must not return before every
+         internal goroutine has reached its exit (observed through the verif hook) *)
+      if existsb (fun te => twg <? te) (obs_wexits o) then
+        L [sym "specfail"; sym "c11-wg"; L [I twg; L (map I (obs_wexits o))]]
+      else
       if existsb (fun p => match p with (i, _, kind, _) => (kind =? 0) end) (obs_peers o) then
         L [sym "specfail"; sym "c11-socket-open"; L []]
       else
